@@ -24,7 +24,8 @@ META = {
     "stubs": ["LAPACK stubs", "SIN/COS uninterpreted with Pythagoras"],
     "assumptions": ["denominators recorded during execution are non-zero"],
 }
-PROBS = {"flows": L.prob_symplectic_flows, "step": L.prob_symplectic_step, "structure": L.prob_structure}
+PROBS = {"flows": L.prob_symplectic_flows, "step": L.prob_symplectic_step, "structure": L.prob_structure,
+         "series": L.prob_symplectic_series}
 
 
 def run_group(rec, probs):
@@ -60,6 +61,14 @@ def cases(tier):
                                      ("leapfrog", "euclid", 2, "dense", 2), ("bcss4", "euclid", 2, "diag", 1), ("symcomp2", "gauss", 2, "diag", 1),
                                      ("leapfrog", "euclid", 2, "diag", 3)):
         G(f"step_uf/{ik}/{kind}/{dim}/{mkind}/n{n}", "step", {"ikind": ik, "kind": kind, "dim": dim, "mkind": mkind, "n": n, "uf": True})
+    # implicit integrators (real fixed-point solver) on position-dependent metrics: Jacobian of the step as a power series in the
+    # step size with dual-number coefficients, J^T Omega J = Omega order by order through eps^3
+    ser = [("implicit_leapfrog", "scalar", 1), ("implicit_leapfrog", "diagonal", 1), ("implicit_midpoint", "scalar", 1), ("implicit_leapfrog", "euclid", 1)]
+    if th:
+        ser += [("implicit_midpoint", "diagonal", 1), ("implicit_leapfrog", "scalar", 2), ("implicit_leapfrog", "cholesky", 1), ("implicit_midpoint", "euclid", 1),
+                ("implicit_leapfrog", "gauss", 1)]
+    for ik, kind, dim in ser:
+        G(f"series_symplectic/{ik}/{kind}/{dim}", "series", {"ikind": ik, "kind": kind, "dim": dim, "mkind": "diag"}, timeout_s=1500)
     for ik in ("leapfrog", "symcomp1", "symcomp1h2", "symcomp2", "symcomp3", "bcss2", "bcss3", "bcss4"):
         G(f"structure/{ik}", "structure", {"ikind": ik}, timeout_s=300)
     steps = [("leapfrog", "euclid", 1, "diag", 1), ("leapfrog", "euclid", 2, "diag", 1), ("leapfrog", "euclid", 1, "diag", 2),
